@@ -276,3 +276,44 @@ Proof.
     change (default [] (Some rest)) with rest in Hpo. cbn [app]. f_equal. exact Hpo.
   - rewrite list_lookup_insert_ne in Hpo by congruence. exact Hpo.
 Qed.
+
+(** ** the same through an AltrootFS: its create_dir on q is the underlying create_dir on root ++ q
+    (C07 exactness), so a create_dir_all thread walks the shifted prefixes; the altroot's root has to
+    be a directory of the underlying filesystem *)
+Definition alt_cda_thread (root P : list (list N)) : cthread := mkCT [root] (map (app root) (prefixes P)).
+
+Lemma chain_shift (root : list (list N)) : forall ds prev, chain prev ds -> chain (root ++ prev) (map (app root) ds).
+Proof.
+  induction ds as [|d ds IH]; intros prev H; cbn; [exact I|].
+  destruct H as (Hne & Hrl & Hch). split; [|split].
+  - intros E. apply app_eq_nil in E as [_ E]. congruence.
+  - destruct (path_cases d) as [->|(q & n & ->)]; [congruence|].
+    rewrite removelast_snoc in Hrl. subst q. rewrite app_assoc. apply removelast_snoc.
+  - apply IH. exact Hch.
+Qed.
+
+Theorem altroot_create_dir_all_concurrent (s : mstate) (root : list (list N)) (Ps : list (list (list N))) (sch : list nat) :
+  wf s -> is_dir s root -> Forall (fun P => Forall (not_file s) (map (app root) (prefixes P))) Ps ->
+  let '(s', pool') := crun sch s (map (fun P => Some (alt_cda_thread root P)) Ps) in
+  Forall (fun x => x <> None) pool' /\
+  Forall (fun x => match x with
+                   | Some t => ct_todo t = [] -> Forall (is_dir s') (ct_done t)
+                   | None => False
+                   end) pool'.
+Proof.
+  intros Hwf Hroot Hn.
+  assert (Hok : pool_ok s (map (fun P => Some (alt_cda_thread root P)) Ps)).
+  { unfold pool_ok. rewrite Forall_forall. intros x Hx. apply elem_of_list_fmap in Hx as (P & -> & HP).
+    exists (alt_cda_thread root P). split; [reflexivity|].
+    unfold alt_cda_thread, prev_of, good. cbn [ct_done ct_todo last default].
+    split; [exact Hroot|]. split; [|split].
+    - pose proof (chain_prefixes_from P 0) as H. rewrite take_0, Nat.sub_0_r in H.
+      pose proof (chain_shift root _ _ H) as H'. rewrite app_nil_r in H'. exact H'.
+    - rewrite Forall_forall in Hn. now apply Hn.
+    - constructor; [exact Hroot|constructor]. }
+  pose proof (crun_ok sch s _ Hok) as H.
+  destruct (crun sch s _) as [s' pool']. cbn [fst snd] in H.
+  unfold pool_ok in H. rewrite Forall_forall in H. split; rewrite Forall_forall; intros x Hx.
+  - destruct (H x Hx) as (t & -> & _). discriminate.
+  - destruct (H x Hx) as (t & -> & (_ & _ & _ & Hd)). intros _. exact Hd.
+Qed.
